@@ -51,6 +51,9 @@ def run(ctx):
             with open(fb, "w") as f:
                 for name, n in (("big", 1_300_000 + rnd.randrange(1000)), ("mid", 70_000 + rnd.randrange(1000)), ("small", 9)):
                     f.write(">%s\n%sN\n" % (name, "".join(rnd.choices("ACGTacgtu", k=n))))
+                # lengths at and beside 2^16, all bases in one canonical column
+                for name, n, pair in (("e65535", 65535, "AT"), ("e65536", 65536, "AT"), ("e65537", 65537, "at"), ("g65536", 65536, "CG"), ("u65536", 65536, "AU")):
+                    f.write(">%s\n%s\n" % (name, "".join(rnd.choices(pair, k=n))))
                 # one canonical k-mer more than 2^24 times in a single string
                 f.write(">huge\n%s%s%sN\n" % ("A" * (12_000_000 + rnd.randrange(1000)), "t" * (5_500_000 + rnd.randrange(1000)),
                                               "".join(rnd.choices("ACGT", k=500))))
